@@ -8,7 +8,7 @@ struct HA {
     id: String, short: Option<char>, long: Option<String>, vnames: Vec<String>, kind: u8, // 0 SetTrue 1 Count 2 Set 3 Append 4 positional
     num: Option<(usize, Option<usize>)>, required: bool, req_eq: bool, hide: bool, hide_s: bool, hide_l: bool, nlh: bool,
     hide_pv: bool, hide_def: bool, heading: Option<String>, help: Option<String>, long_help: Option<String>, defaults: Vec<String>,
-    pvs: Vec<(String, bool, Option<String>)>, order: Option<usize>,
+    pvs: Vec<(String, bool, Option<String>)>, order: Option<usize>, last: bool,
 }
 #[derive(Clone, Debug)]
 struct HS { name: String, short_flag: Option<char>, long_flag: Option<String>, hide: bool, about: Option<String>, aliases: Vec<String>, args: Vec<HA> }
@@ -81,6 +81,8 @@ fn gen_args(rng: &mut Rng, prefix: &str, shorts: &mut Vec<char>, n_opts: usize, 
             help: if rng.chance(5, 6) { Some(text(rng, &format!("H{id}"))) } else { None },
             long_help: if rng.chance(1, 8) { Some(text(rng, &format!("LH{id}"))) } else { None },
             defaults, pvs, order: if rng.chance(1, 3) { Some(rng.below(2)) } else { None },
+            // `-- <ARGS>`: the usage line has a branch of its own for a `last(true)` positional
+            last: last_pos && rng.chance(1, 3),
         });
     }
     out
@@ -125,6 +127,7 @@ fn build_arg(a: &HA) -> Arg {
     if !a.vnames.is_empty() { r = r.value_names(a.vnames.clone()); }
     if let Some((lo, hi)) = a.num { r = match hi { Some(h) => r.num_args(lo..=h), None => r.num_args(lo..) }; }
     if a.required { r = r.required(true); }
+    if a.last { r = r.last(true); }
     if a.req_eq { r = r.require_equals(true); }
     if a.hide { r = r.hide(true); }
     if a.hide_s { r = r.hide_short_help(true); }
